@@ -20,6 +20,8 @@ DECL = {
     4: ('org.v.I1', 'secret', 'y', 'write', 'true', 'secret', False),
     5: ('org.v.I1', 'ratio', 'd', 'readwrite', 'false', 'ratio', False),
     6: ('org.v.I2', 'flag', 'b', 'readwrite', 'true', 'flag', False),
+    # interface + name spell the same string as declaration 3 ('org.v.I1' + 'name'): two different properties
+    7: ('org.v.I1n', 'ame', 's', 'readwrite', 'false', 'ame', False),
 }
 CONCRETE = {'i': [9, 10, 11, 12], 'u': [19, 20, 21, 22], 's': ['n0', 'n1', 'n2', 'n3'], 'y': [0, 1, 2, 3],
             'd': [1.5, 5, 2.5, 7], 'b': [False, True, False, True]}
@@ -45,11 +47,11 @@ def value_id(p, x, last):
 #   ifaces = (dbusInterfaces of the base class, of the subclass); sub = ids declared on the subclass;
 #   anon = ids whose DBusProperty does not name its interface; order = order of the initial assignments
 LAYOUTS = {
-    'base-both': dict(ifaces=(('org.v.I1', 'org.v.I2'), ()), sub=(4, 5, 6), anon=(), order=(1, 2, 3, 4, 5, 6)),
-    'split': dict(ifaces=(('org.v.I1',), ('org.v.I2',)), sub=(2, 6), anon=(), order=(1, 2, 3, 4, 5, 6)),
-    'split-rev': dict(ifaces=(('org.v.I2',), ('org.v.I1',)), sub=(1, 3, 4, 5), anon=(), order=(6, 5, 4, 3, 2, 1)),
-    'sub-first': dict(ifaces=(('org.v.I1',), ('org.v.I2',)), sub=(2, 6), anon=(3, 4, 5, 6), order=(2, 6, 5, 1, 3, 4)),
-    'anon': dict(ifaces=((), ('org.v.I2', 'org.v.I1')), sub=(1, 3, 5), anon=(3, 4, 5, 6), order=(4, 3, 1, 6, 2, 5)),
+    'base-both': dict(ifaces=(('org.v.I1', 'org.v.I2', 'org.v.I1n'), ()), sub=(4, 5, 6), anon=(), order=(1, 2, 3, 4, 5, 6, 7)),
+    'split': dict(ifaces=(('org.v.I1',), ('org.v.I2', 'org.v.I1n')), sub=(2, 6, 7), anon=(), order=(1, 2, 3, 4, 5, 6, 7)),
+    'split-rev': dict(ifaces=(('org.v.I2', 'org.v.I1n'), ('org.v.I1',)), sub=(1, 3, 4, 5), anon=(), order=(7, 6, 5, 4, 3, 2, 1)),
+    'sub-first': dict(ifaces=(('org.v.I1',), ('org.v.I2', 'org.v.I1n')), sub=(2, 6, 7), anon=(3, 4, 5, 6, 7), order=(2, 6, 5, 1, 7, 3, 4)),
+    'anon': dict(ifaces=((), ('org.v.I2', 'org.v.I1', 'org.v.I1n')), sub=(1, 3, 5), anon=(3, 4, 5, 6), order=(4, 3, 1, 6, 2, 5, 7)),
 }
 
 
@@ -61,7 +63,7 @@ def build_classes(layout='base-both'):
         return interface.Property(name, sig, readable=access in ('read', 'readwrite'), writeable=access in ('write', 'readwrite'),
                                   emitsOnChange={'true': True, 'false': False, 'invalidates': 'invalidates'}[emits])
     ifs = {n: interface.DBusInterface(n, *[prop(p) for p in DECL if DECL[p][0] == n], noRegister=True)
-           for n in ('org.v.I1', 'org.v.I2')}
+           for n in sorted(set(d[0] for d in DECL.values()))}
     base_attrs = {}
     sub_attrs = {}
     if lay['ifaces'][0]:
@@ -261,7 +263,7 @@ def run(tier, seed):
            'PROPERTY ReadOnlyStable\nCHECK_DEADLOCK FALSE\n')
     mv = 2 if thorough else 1
     res, g = tlc.dump_graph('Props', 'p.cfg', extra=dict(extra, **{'p.cfg': cfg % mv}), timeout=600)
-    chk.tlc_stats(res, 'Props: 6 declarations, values 0..%d, all histories' % mv)
+    chk.tlc_stats(res, 'Props: 7 declarations, values 0..%d, all histories' % mv)
     if not res.ok:
         chk.violation('model: Props %s %s' % res.violation, dict(kind='TLC', trace=repr(res.trace[-2:])))
     chk.notes['graph'] = [len(g.nodes), g.nedges]
@@ -273,8 +275,8 @@ def run(tier, seed):
         core.replay_paths(chk, g, list(core.random_walks(g, 2000 if thorough else 300, 10, rng)),
                           lambda acts, lay=lay: PropsDriver(lay), 'walks/' + lay, 'c17', {'layout': lay})
     # code -> spec: random histories with all three values
-    ifaces = ['org.v.I1', 'org.v.I2', '', 'x.Unknown']
-    names = ['level', 'name', 'secret', 'ratio', 'flag', 'nope']
+    ifaces = ['org.v.I1', 'org.v.I2', 'org.v.I1n', '', 'x.Unknown']
+    names = ['level', 'name', 'secret', 'ratio', 'flag', 'ame', 'nope']
     batches = {}
     for i in range(300 if thorough else 75):
         lay = list(LAYOUTS)[i % len(LAYOUTS)]
@@ -294,7 +296,7 @@ def run(tier, seed):
                     continue
                 acts.append(('SetP', (ia, na, rng.randint(1, 3))))
             else:
-                acts.append(('GetAll', (rng.choice(['org.v.I1', 'org.v.I2', 'x.Unknown']),)))
+                acts.append(('GetAll', (rng.choice(['org.v.I1', 'org.v.I2', 'org.v.I1n', 'x.Unknown']),)))
         try:
             batches.setdefault(lay, []).append(rerecord({'layout': lay}, acts))
         except Exception:
@@ -317,7 +319,7 @@ def run(tier, seed):
     rej, _ = core.validate_traces('Props', OBS, [[tuple(x) for x in tr]], ACTIONS, cfg_consts=trace_cfg(), nproc=1, extra=extra)
     chk.canary = {'what': 'variant type of one recorded Get reply changed', 'rejected': bool(rej)}
     chk.notes['layouts'] = list(LAYOUTS)
-    chk.assumptions = ['one object with six declarations (same name on two interfaces, all access modes, all notification modes, '
+    chk.assumptions = ['one object with seven declarations (same name on two interfaces, two declarations whose interface + name concatenate to the same string, all access modes, all notification modes, '
                        'basic types i u s y d b incl. a double holding a Python int) in five class layouts: both interfaces on '
                        'the base class; one interface per class (either way round, the same-named property split between base '
                        'class and subclass); descriptors that do not name their interface; different first-assignment orders',
